@@ -79,6 +79,8 @@ mod scanners;
 mod strings;
 #[cfg(test)]
 mod tests;
+#[cfg(comrak_verif)]
+pub mod verif;
 mod xml;
 
 pub use cm::format_document as format_commonmark;
